@@ -455,20 +455,7 @@ impl TypeChecker {
 
         // A `mut self` method of a user type needs a receiver variable declared `mut`: rustc would reject the borrow.
         if self.method_mutates_receiver(&base_ty, method) {
-            let mut root = base;
-            while let Expr::Field(inner, _) | Expr::Index(inner, _) | Expr::Paren(inner) = &root.node {
-                root = inner;
-            }
-            if let Expr::Ident(name) = &root.node {
-                let immutable = self
-                    .symbols
-                    .lookup(name)
-                    .and_then(|id| self.symbols.get(id))
-                    .is_some_and(|sym| matches!(&sym.kind, SymbolKind::Variable(v) if !v.is_mutable));
-                if immutable {
-                    self.errors.push(errors::mutation_without_mut(name, span));
-                }
-            }
+            self.require_mutable_root(base, span);
         }
 
         // If the receiver type is Unknown, be permissive and do not error on methods.
